@@ -30,6 +30,9 @@ RULE = ("per public function: a random labelled case is evaluated in the canonic
 ASSUMPTIONS = ["laziness and non-mutation are observations of this run, not theorems"]
 
 
+# counters that every complete run must have incremented (harness self-check, see core.run_check)
+EXPECT_COUNTS = ['rep:as-generated', 'rep:transpose', 'rep:shuffle-coords', 'rep:dask', 'rep:dtype', 'rep:dataset', 'rep:dataset-second-variable', 'rep:pandas', 'rep:pandas-angular', 'rep:manager-multistep', 'model_tie']
+
 def S():
     import scores
     return scores
@@ -135,7 +138,7 @@ def run(ctx):
             if not unchanged(xs, snap):
                 ctx.violation(f"{rc.name}: the call modified its inputs (values, coordinates or attrs)", desc, "inputs unchanged", "inputs changed")
 
-            def check(rep, ys, post=None, lazy_expected=None):
+            def check(rep, ys, post=None, lazy_expected=None, tol=1e-9):
                 nonlocal programs
                 snap2 = snapshot(ys) if lazy_expected is None else None
                 r = core.call_impl(rc.call, ys, **kw)
@@ -143,7 +146,7 @@ def run(ctx):
                 if r[0] == "ok" and lazy_expected is not None:
                     lazy = is_lazy(r[1])
                     r = ("ok", post(r[1]))
-                ok, why = scorelib.same_result(base, r, tol=1e-9)
+                ok, why = scorelib.same_result(base, r, tol=tol)
                 ctx.case((rc.name, rep, desc))
                 ctx.count("rep:" + rep.split(":")[0])
                 programs += 1
@@ -175,6 +178,17 @@ def run(ctx):
                     for sched in ("synchronous", "threads"):
                         ys = [rep_dask(rng, x, mode) for x in xs]
                         check(f"dask:{mode}:{sched}", ys, post=lambda r, s=sched: compute(r, s), lazy_expected=rc.lazy)
+            # storage dtype: the same integer values held as int64 / int32 / float32 instead of float64 (NaN-free
+            # integer-valued inputs only; unsigned and bool storage are outside the quantifier: numpy itself wraps there)
+            if rc.dtypes:
+                xi = [x.copy(data=np.rint(np.nan_to_num(x.values, nan=0.0, posinf=3.0, neginf=-3.0))) for x in xs]
+                kw_saved, base_saved = kw, base
+                base = core.call_impl(rc.call, xi, **kw)
+                if base[0] == "ok":
+                    for dt in ("int64", "int32", "float32"):
+                        which = [i for i in range(len(xi)) if rng.random() < 0.7] or [0]
+                        check(f"dtype:{dt}", [x.astype(dt) if i in which else x for i, x in enumerate(xi)], tol=1e-9 if dt != "float32" else 2e-6)
+                kw, base = kw_saved, base_saved
             # Dataset variables
             if rc.dataset is not None and xarraylike_params(rc.dataset):
                 # second variable: the same fields read backwards (other values, other NaN slots, same domain and labels),
@@ -193,6 +207,7 @@ def run(ctx):
                     if not ok:
                         ctx.violation(f"{rc.name}: Dataset variable differs from the DataArray result: {why}", desc, "same", why)
                     elif base2[0] == "ok":
+                        ctx.count("rep:dataset-second-variable")
                         ok, why = scorelib.same_value(base2[1], r[1]["v2"])
                         if not ok:
                             ctx.violation(f"{rc.name}: second Dataset variable (the fields reversed) differs from the DataArray result: {why}",
@@ -227,7 +242,7 @@ def pandas_api(ctx):
                 a = core.call_impl(getattr(PC, nm), pd.Series(ff), pd.Series(oo), **kwa)
                 b = core.call_impl(getattr(Sc.continuous, nm), xr.DataArray(ff, dims="x"), xr.DataArray(oo, dims="x"), **kwa)
                 ctx.case(("pandas", nm, ang, tuple(ff), tuple(map(str, oo))))
-                ctx.count("rep:pandas")
+                ctx.count("rep:pandas-angular" if ang else "rep:pandas")
                 if a[0] != b[0] or (a[0] == "ok" and not np.allclose(float(a[1]), float(b[1]), rtol=1e-9, atol=1e-12, equal_nan=True)):
                     ctx.violation(f"scores.pandas.continuous.{nm}({kwa}) differs from the xarray function on the same values", {"fcst": ff, "obs": oo, "kwargs": kwa}, str(b[1]), str(a[1]))
 
